@@ -68,6 +68,9 @@ def run_one(m, workdir):
             allk = [k for _, _, keys, _ in results for k in keys]
             return name, 'MISSED', 'no violation matching /%s/ (violations: %s)' % (m.get('key_rx'), allk[:3]), time.time() - t0
         bad = [(p, keys) for p, rc, keys, _ in results if rc != 0]
+        if bad and m['expect'] == 'known-limit':
+            # a behaviour-preserving edit that the structural rules are documented (DESIGN.md 10.6) not to see through
+            return name, 'known-limit', 'documented limit, raised: %s' % [(p, k[:1]) for p, k in bad], time.time() - t0
         if bad:
             return name, 'FALSE-ALARM', 'behaviour-preserving edit raised: %s' % [(p, k[:2]) for p, k in bad], time.time() - t0
         return name, 'ok', 'silent', time.time() - t0
